@@ -6,7 +6,8 @@
 #           check's arming recorded in the evidence: every mutant of the corpus that
 #           names this property is applied to a scratch copy of /repo (outside /repo
 #           and /verif, removed afterwards) and must be reported; every refactoring
-#           control must leave the check silent. The self-test never changes the
+#           control must leave the check silent; every independently seeded change
+#           kept under seeded/ for this property must be reported. The self-test never changes the
 #           verdict about /repo; it is reported under coverage.self_test.
 cd "$(dirname "$0")/.."
 . ./scripts/env.sh
@@ -18,22 +19,23 @@ fi
 rc=$?
 if [ "$tier" = "thorough" ] && [ -f "evidence/$id.json" ] && [ -f mutants/patches/index.json ]; then
   python3 scripts/run_mutants.py -j 8 --self-test "$id" > ".work/selftest-$id.txt" 2>&1
+  [ -d seeded ] && python3 scripts/seed_recheck.py --self-test "$id" >> ".work/selftest-$id.txt" 2>&1
   python3 - "$id" <<'PY'
 import json, sys, os, re
 pid = sys.argv[1]
 ev = json.load(open("evidence/%s.json" % pid))
 lines = open(".work/selftest-%s.txt" % pid).read().splitlines()
-st = {"mutants_caught": [], "mutants_missed": [], "mutants_skipped": [], "refactors_silent": [], "refactors_flagged": []}
+st = {"mutants_caught": [], "mutants_missed": [], "mutants_skipped": [], "refactors_silent": [], "refactors_flagged": [], "seeds_caught": [], "seeds_missed": [], "seeds_skipped": []}
 for l in lines:
     parts = l.split()
     if len(parts) < 2: continue
     tag, name = parts[0], parts[1]
-    key = {"CAUGHT": "mutants_caught", "MISSED": "mutants_missed", "SKIP": "mutants_skipped", "SILENT": "refactors_silent", "FALSE-ALARM": "refactors_flagged"}.get(tag)
+    key = {"CAUGHT": "mutants_caught", "MISSED": "mutants_missed", "SKIP": "mutants_skipped", "SILENT": "refactors_silent", "FALSE-ALARM": "refactors_flagged", "SEED-CAUGHT": "seeds_caught", "SEED-MISSED": "seeds_missed", "SEED-SKIP": "seeds_skipped"}.get(tag)
     if key: st[key].append(name)
 st["note"] = "arming self-test on scratch copies of /repo; does not affect the verdict on /repo"
 ev["coverage"]["self_test"] = st
 json.dump(ev, open("evidence/%s.json" % pid, "w"), indent=1)
-print("self-test: %d mutants caught, %d missed, %d skipped; %d refactorings silent, %d flagged" % (len(st["mutants_caught"]), len(st["mutants_missed"]), len(st["mutants_skipped"]), len(st["refactors_silent"]), len(st["refactors_flagged"])))
+print("self-test: %d mutants caught, %d missed, %d skipped; %d refactorings silent, %d flagged; %d independently seeded changes caught, %d missed, %d no longer applicable" % (len(st["mutants_caught"]), len(st["mutants_missed"]), len(st["mutants_skipped"]), len(st["refactors_silent"]), len(st["refactors_flagged"]), len(st["seeds_caught"]), len(st["seeds_missed"]), len(st["seeds_skipped"])))
 PY
 fi
 exit $rc
